@@ -445,7 +445,7 @@ fn parse_command(
 			group.output_filename = Some(derive_output_filename(
 				report,
 				group.format.unwrap(),
-				&command.input_filenames[0])?);
+				&command.input_filenames)?);
 		}
 	}
 
@@ -457,9 +457,13 @@ fn parse_command(
 fn derive_output_filename(
 	report: &mut diagn::Report,
 	format: OutputFormat,
-	input_filename: &str)
+	input_filenames: &[String])
 	-> Result<String, ()>
 {
+	// The name is derived from the first input file, but it
+	// must not be the name of any of the input files
+	let input_filename = &input_filenames[0];
+
 	let extension = {
 		match format
 		{
@@ -477,7 +481,7 @@ fn derive_output_filename(
 		.into_owned()
 		.replace("\\", "/");
 
-	if output_filename == input_filename
+	if input_filenames.iter().any(|f| f == &output_filename)
 	{
 		report.error("cannot derive safe output filename");
 		return Err(());
